@@ -42,7 +42,9 @@ NamedStrings ==
     <<48, 120, 49, 48>>, <<49, 32, 50>>, <<49, 50, 51, 52, 53>>, <<10, 49, 46, 53, 9>>, <<45, 48>>, <<45>>, <<46>>,
     <<48, 46, 48, 48, 48, 57, 55, 54, 53, 54, 50, 53>>, <<49, 48, 52, 56, 53, 55, 53>>, <<32, 97, 32, 32, 98, 9, 10, 99, 32>>,
     <<116, 114, 117, 101>>, <<45, 45, 49>>, <<49, 46, 50, 46, 51>>,
-    <<105, 116, 39, 115>>, <<34, 113, 34>>, <<60, 38, 62>> }                \* it's  "q"  <&>  (quoting of literals)
+    <<105, 116, 39, 115>>, <<34, 113, 34>>, <<60, 38, 62>>,                 \* it's  "q"  <&>  (quoting of literals)
+    \* numerals padded with white space that is NOT the XML production S (NBSP, IDEOGRAPHIC SPACE, EM SPACE): NaN
+    <<160, 49, 50>>, <<49, 50, 12288>>, <<8195, 55, 8195>> }
 SmallStrings == { <<>>, <<97>>, <<97, 98>>, <<26085, 26412>>, <<233, 128512>>, <<49, 50, 51, 52, 53>>, <<32, 97, 32, 32, 98, 32>> }
 Needles == { <<>>, <<97>>, <<98>>, <<26412>>, <<128512>>, <<32>>, <<50, 51>>, <<97, 98>> }
 
